@@ -585,7 +585,7 @@ pub fn run(lines: &[Value], opts: &SampleOpts) -> Summary {
         let mut rng = rng_for(opts.seed, idx);
         if li < 2 { sm.sample(json!({"g": inst["g"], "name": inst["name"], "m": inst["m"], "routings": inst["routings"], "utrees": inst["utrees"], "f2": inst["f2"], "fm": inst["fm"], "NT": inst["NT"], "cmin": inst["cmin"], "csum": inst["csum"]})); }
         let map = line.g.label_map(&mut rng, false);
-        let spec = line.g.to_spec(&map, &[]);
+        let spec = line.g.to_spec_messy(&map, &[], &mut rng);
         let mut samplers: Vec<Box<dyn DynSampler>> = vec![];
         let mut okb = true;
         for (sig, _) in &line.routings {
@@ -665,7 +665,7 @@ pub fn run_sector(lines: &[Value], seed: u64, base_idx: u64, points: usize) -> S
         }).collect();
         if steer.iter().any(|s| s.is_none()) { sm.count("unsteerable"); continue; }
         let map = g.label_map(&mut rng, false);
-        let s = match build(&g.to_spec(&map, &[]), cycle_basis(&g.edges), g.d) { BuildOut::Ok(s) => s, o => {
+        let s = match build(&g.to_spec_messy(&map, &[], &mut rng), cycle_basis(&g.edges), g.d) { BuildOut::Ok(s) => s, o => {
             sm.violation("C05", format!("build of an accepted graph gave {}", o.name()), json!({"line": inst, "idx": idx}), json!({})); continue; } };
         if li < 2 { sm.sample(inst.clone()); }
         if e >= 3 { sm.nontrivial += 1; }
